@@ -235,6 +235,52 @@ func ruleCrossCallState(typ, entry string) func(r *Run) {
 	return func(r *Run) { crossCallGeneric(r, pkgMd, typ, []string{entry}) }
 }
 
+// lazyDefaultStore: st stores into field f inside the nil branch of a test of that same field, and
+// the stored value is a constant, a fresh object or the result of a call without arguments.
+func lazyDefaultStore(fn *ssa.Function, f *types.Var, st *ssa.Store) bool {
+	switch v := st.Val.(type) {
+	case *ssa.Const, *ssa.Alloc, *ssa.MakeMap, *ssa.MakeSlice:
+	case *ssa.Call:
+		if len(v.Call.Args) != 0 {
+			return false
+		}
+	default:
+		return false
+	}
+	for _, b := range fn.Blocks {
+		if len(b.Instrs) == 0 {
+			continue
+		}
+		iff, ok := b.Instrs[len(b.Instrs)-1].(*ssa.If)
+		if !ok {
+			continue
+		}
+		bo, ok := iff.Cond.(*ssa.BinOp)
+		if !ok || (bo.Op != token.EQL && bo.Op != token.NEQ) || (!isNilConst(bo.X) && !isNilConst(bo.Y)) {
+			continue
+		}
+		opnd := bo.X
+		if isNilConst(bo.X) {
+			opnd = bo.Y
+		}
+		ld, ok := opnd.(*ssa.UnOp)
+		if !ok || ld.Op != token.MUL {
+			continue
+		}
+		if fv, _ := fieldOfAddr(ld.X); fv != f {
+			continue
+		}
+		nilSucc := b.Succs[0]
+		if bo.Op == token.NEQ {
+			nilSucc = b.Succs[1]
+		}
+		if edgeRegion(b, nilSucc)[st.Block()] {
+			return true
+		}
+	}
+	return false
+}
+
 func crossCallGeneric(r *Run, pkg, typ string, entries []string) {
 	{
 		p := r.P
@@ -277,6 +323,11 @@ func crossCallGeneric(r *Run, pkg, typ string, entries []string) {
 						switch x := u.(type) {
 						case *ssa.Store:
 							if x.Addr == ssa.Value(fa) {
+								// `if w.f == nil { w.f = defaults() }`: a default filled in for a missing
+								// configuration value — set once, from nothing computed during the run
+								if lazyDefaultStore(fn, f, x) {
+									continue
+								}
 								accs = append(accs, acc{fn, x, true})
 							}
 						case *ssa.UnOp:
@@ -1500,6 +1551,12 @@ func ruleSoftBreak(r *Run) {
 		allInstrs(fn, func(in2 ssa.Instruction) {
 			if c, ok := in2.(ssa.CallInstruction); ok && strings.HasSuffix(calleeName(c), ".SoftLineBreak") {
 				cut[c.Block()] = true
+			} else if ok {
+				// the Text case may be a helper shared with the task-item renderer (addTextNode(p, n, …)):
+				// it counts when every path through the helper consults SoftLineBreak()
+				if cal := staticCallee(c); cal != nil && p.inModule(cal) && alwaysCallsOnSuccess(p, cal, func(cn string) bool { return strings.HasSuffix(cn, ".SoftLineBreak") }, 0) {
+					cut[c.Block()] = true
+				}
 			}
 		})
 		var loop *natLoop
@@ -2111,6 +2168,13 @@ func ruleCounterMonotonic(owners ...string) func(r *Run) {
 				if clones[top] || isDocConstructor(top) {
 					return
 				}
+				// …or of an object that every caller has just created: an unexported initialisation
+				// helper of a constructor / clone function (inheritRegistries(dst, src))
+				if par, ok := stripLoads(base).(*ssa.Parameter); ok && top == fn && !fn.Object().Exported() {
+					if pi := paramIndex(fn, par); pi >= 0 && onlyFreshArgs(p, fn, pi) {
+						return
+					}
+				}
 				// the restore of the image counter on Open is decided by counter-numeric / fresh-dep
 				if fv.Name() == "nextImageID" {
 					if open := p.Func(pkgDoc, "openFromZipReader"); open != nil {
@@ -2137,6 +2201,44 @@ func ruleCounterMonotonic(owners ...string) func(r *Run) {
 		}
 		r.Min("id_counter_updates", n, 1)
 	}
+}
+
+// onlyFreshArgs: every static call of fn passes, as argument pi, an object created in the calling
+// function (an allocation or the result of a Document constructor); fn has at least one caller and
+// is never used as a value.
+func onlyFreshArgs(p *Program, fn *ssa.Function, pi int) bool {
+	callers := p.callersIndex()[fn]
+	if len(callers) == 0 {
+		return false
+	}
+	ok := true
+	sites := 0
+	for caller := range callers {
+		allInstrs(caller, func(in ssa.Instruction) {
+			for _, op := range in.Operands(nil) {
+				if *op == ssa.Value(fn) {
+					if c, isCall := in.(ssa.CallInstruction); !isCall || c.Common().Value != ssa.Value(fn) {
+						ok = false // used as a function value
+					}
+				}
+			}
+			c, isCall := in.(ssa.CallInstruction)
+			if !isCall || staticCallee(c) != fn || pi >= len(c.Common().Args) {
+				return
+			}
+			sites++
+			switch a := stripLoads(c.Common().Args[pi]).(type) {
+			case *ssa.Alloc:
+			case *ssa.Call:
+				if cal := staticCallee(a); cal == nil || !isDocConstructor(cal) {
+					ok = false
+				}
+			default:
+				ok = false
+			}
+		})
+	}
+	return ok && sites > 0
 }
 
 func symOfExpr(v ssa.Value) string {
